@@ -590,6 +590,24 @@ func enumerate(quick bool, yield func(p *Program)) {
 				[]Call{branch(START, tMap, "k", "x"), edge("k", "p1"), edge("x", "p1"), edge("p1", "s"), edge("s", END)})[:1])
 		}
 	}
+	// G6  a producer of declared type X (concrete, interface, the defined map type) directly, and through a pass-through,
+	//     into a node with an input key AND an output key: START(string) -> k[string>X] (-> p1) -> n keyed -> s[T>string] -> END(any).
+	//     The run-time check on an interface-typed edge into n is against map[string]any (what n takes from the graph),
+	//     not against the type of the lambda inside it.
+	for _, x := range U {
+		for _, t := range U {
+			if quick && !(t == tMap || t == tAny || t == tString) {
+				continue
+			}
+			emit(fromCalls("into-keyed", tString, tAny, []*Node{lam("k", tString, x), keyed("n"), lam("s", t, tString)},
+				[]Call{edge(START, "k"), edge("k", "n"), edge("n", "s"), edge("s", END)})[:1])
+			if quick && t != tMap {
+				continue
+			}
+			emit(fromCalls("pass-into-keyed", tString, tAny, []*Node{lam("k", tString, x), pass("p1"), keyed("n"), lam("s", t, tString)},
+				[]Call{edge(START, "k"), edge("k", "p1"), edge("p1", "n"), edge("n", "s"), edge("s", END)})[:1])
+		}
+	}
 	if quick {
 		return
 	}
